@@ -150,8 +150,9 @@ Definition adjust (figure offs : list Q) : list Q := map2 Qplus figure offs.
 
 (* ------------------------------------------------------------------------------------------------ *)
 (* remaining_reservoir_heat_content: Initial - np.add.accumulate(HeatkWhExtracted) * 3600 * 1E3 / 1E15 *)
+(* the running sum is kept reduced (Qred changes the representation, not the value) so that long lifetimes stay cheap *)
 Fixpoint cumsum_from (acc : Q) (l : list Q) : list Q :=
-  match l with [] => [] | x :: r => (acc + x) :: cumsum_from (acc + x) r end.
+  match l with [] => [] | x :: r => let a := Qred (acc + x) in a :: cumsum_from a r end.
 
 Definition remaining (init : Q) (kwh : list Q) : list Q :=
   map (fun c => init - c * 3600 * 1000 / 1000000000000000) (cumsum_from 0 kwh).
